@@ -109,9 +109,63 @@ func vHostileList(tp *verifsim.Tape) []string {
 	return append(out, []string{"victim.txt", "canary.txt", "evil", "sibling"}[tp.Draw("hl.last", 4)])
 }
 
+// vC09StopDelete: a transfer into a destination that holds nothing else, below ancestors that hold nothing else,
+// stopped with "stop and delete" at a tape-chosen moment. Deleting what the transfer created must not reach the
+// chosen directory itself or anything above it.
+func vC09StopDelete(rc *runCtx) {
+	tp := rc.tape
+	cfg := vDrawConfig(tp, false)
+	cfg.timeout = 5
+	cfg.trigVersion = ""
+	cfg.bufSize = []string{"1K", "4k"}[tp.Draw("c09s.buf", 2)]
+	sandbox := filepath.Join(rc.dir, "sandbox")
+	dst := filepath.Join(sandbox, "a", "b", "dst")
+	src := filepath.Join(rc.dir, "src")
+	os.MkdirAll(dst, 0755)
+	vWriteFile(filepath.Join(sandbox, "canary.txt"), []byte("canary outside the destination"))
+	spec := vGenSources(rc, src, 3, cfg.dirMode, 60000, !cfg.overwrite)
+	o := cfg.opts()
+	o.srcPaths, o.dstDir = spec.paths, dst
+	o.profile = transportProfile{segPm: 200, coalPm: 100, latPm: 300, latMax: 20 * time.Millisecond}
+	o.simCap = 10 * time.Minute
+	x := newXferWorld(rc, o)
+	armed := vArmAfterCfg(x)
+	stopped := false
+	vOnChunk(rc, x, armed, []int{60, 200, 500}[tp.Draw("c09s.rate", 3)], func() {
+		stopped = true
+		rc.fault("stop-and-delete")
+		rc.w.Go("api", x.client, func() { x.filter.StopTransferringFiles(true) })
+	})
+	rc.res.ClassKey = "stopdelete " + cfg.key()
+	rc.res.Scenario["config"] = cfg.key()
+	rc.res.Scenario["flags"] = strings.Join(o.flags, " ")
+	before := vSnapshot(sandbox)
+	x.start()
+	rc.w.Run(x.finished)
+	if rc.w.StepCap || !stopped {
+		return
+	}
+	x.settle(2 * time.Second)
+	for _, d := range []string{dst, filepath.Dir(dst), filepath.Dir(filepath.Dir(dst))} {
+		if st, err := os.Stat(d); err != nil || !st.IsDir() {
+			rel, _ := filepath.Rel(sandbox, d)
+			rc.violate("escape", "C09:destination-removed", "after \"stop and delete\" the directory %q - the chosen destination or one above it, none of them created by the transfer - is gone", rel)
+			return
+		}
+	}
+	vCheckContained(rc, before, sandbox, filepath.Join("a", "b", "dst"), "(no hostile name: stop and delete)")
+	if rc.res.Class == "ok" {
+		rc.res.Nontrivial = true
+	}
+}
+
 func vScenarioC09(rc *runCtx) {
 	if rc.param("mode", "system") == "archive" {
 		vC09Archive(rc)
+		return
+	}
+	if rc.tape.Bool("c09.stopdelete", 100) {
+		vC09StopDelete(rc)
 		return
 	}
 	tp := rc.tape
